@@ -23,10 +23,10 @@ func normalizeTaxIdentity(tID *tax.Identity) {
 	if tID == nil {
 		return
 	}
+	tID.Country = "EL" // always override for greece
 	// also allow for usage of "GR" which may be used in the tax code
 	// by accident.
 	tax.NormalizeIdentity(tID, l10n.GR)
-	tID.Country = "EL" // always override for greece
 }
 
 // validateTaxIdentity checks to ensure the tax code looks okay.
